@@ -30,6 +30,12 @@ CHECKS["C02"] = dict(text="The real processQueue is a bounded FIFO from every va
 CHECKS["C13"] = dict(text="Every sequence of API calls up to the stated depth from a fresh simulator (AddWarrior with symbolic code, SpawnWarrior with index in -2..count+2 and any offset < 2^16, RunCycle, Run, Reset, GetWarrior, GetMem, warrior queries) is executed on the real code with the call chosen nondeterministically: no panic site is reachable, inapplicable calls err / return nil and leave the observable state unchanged, applicable calls match the reference state machine (spawn loads code and queues (off+Start) mod M, RunCycle/Run equal the reference scheduler, Reset clears), Run terminates within maxCycles+1 iterations (unwinding assertion); from an arbitrary non-steppable state (finished, empty or never-started battle, some warriors without a queue) RunCycle and Run change nothing and return; Reset + re-spawn equals a fresh simulator, also after one more cycle.",
              note="Trusted: translator (witness replay), z3, the reference state machine of DESIGN.md appendix B (steppable = what cmd/vmars guards). Bounds: M=3 (thorough 4), P 1..2, depth 2 from fresh / 1 after a spawned prefix (thorough 3 / 2), code length 1..2. No sampling beyond the exhaustive depth.",
              ref="5/C13")
+CHECKS["C06"] = dict(text="assembleLine (real) on a source line whose op field ranges over every mnemonic in three letter cases, bare or with each of the seven modifiers (plus undefined spellings), whose mode fields range over the eight mode characters, omitted and junk, with one or two operands: whenever it succeeds every field is below the core size, opcode/modifier/modes are inside the data model, under ICWS'88 the emitted (op, modes, modifier) satisfies an independently written '88 legality table, and the instruction is the one the line denotes (C03/K3); operand values 0, 1, 7, M-1, M, M+1, 2M+3, 2^31-1, 2^31 with either sign reduce to the right residue; compile (real) on line lists of 0..3 instructions with ORG/END directives whose operand is any signed value up to 2^20: on success the entry point lies inside the code (or is 0 for an empty program) and the program is no longer than the configured maximum length, on error no warrior is returned.",
+             note="Trusted: translator (witness replay), z3, go/types.Eval on concrete expression text (executed natively) and a small model of it for 'sign* numeral' ropes, the '88 table of DESIGN.md appendix C. Token level only (the lexer/parser path is C05/C03). Core sizes 8, 8000 (thorough 3, 8192, 55440).",
+             ref="5/C06")
+CHECKS["C07"] = dict(text="The sign-rewriting stage of expression evaluation (combineSigns then flipDoubleNegatives, real code) preserves the denoted expression on every token sequence over {+, -, other operator, (, ), literal} up to length 5 (thorough 6) that does not end in an operator, compared through an independently written normal form of sign runs (unary run = parity of minus signs, binary run = first sign is the operator); the output never contains two adjacent equal signs (which Go would lex as ++ / --) and keeps all non-sign tokens in order.",
+             note="Trusted: translator (witness replay), z3, the normal form of DESIGN.md appendix D. This is kernel E1 of the design; E2..E4 (glue with EQU substitution, reduction, literals) are covered at chosen values by C06_line and are otherwise outside this check. Exactness of Go's constant arithmetic (go/types) is trusted.",
+             ref="5/C07")
 CHECKS = dict(sorted(CHECKS.items()))
 
 NOT_YET = {
